@@ -22,6 +22,12 @@ HOSTILE_NAMES = {"x": "x']['y", "y": "ref_a", "z": "r", "u": 'x["r"]', "w": "a.b
                  "t1": "r", "t2": "ref_a", "t3": "it's", "t4": "r['t0']", "v3": "var", "v4": "a"}
 
 
+# whole-container reads: group -> number of member locations, and the container paths of the group
+WHOLE_SIZE = {"n": 3, "l": 3, "o": 3, "d": 3, "asub": 2}
+WHOLE_PATHS = {"n": [["r", I("n")]], "l": [["r", I("l")]], "o": [["r", I("o")]],
+               "d": [["r", I("d")], ["r", I("d"), I("m")]], "asub": [["a", A("sub")]]}
+
+
 def make_world(rng, layered=True, n_flat=None, hostile=False):
     """Returns (world spec, locs) where locs = [dict(path, group, kind, layer)].
     hostile=True renames keys to text containing quotes, brackets, dots and container labels."""
@@ -99,6 +105,7 @@ class TermGen:
         self.profile = frozenset(profile)
         self.floats = FLOATS
         self.ints = INTS
+        self.whole_groups = ("n", "l")      # containers that may be read as a whole (f.tot(container))
 
     def lit(self, kind):
         r = self.rng
@@ -126,13 +133,16 @@ class TermGen:
         # computed keys into n / l when the whole container and the key holder are readable
         names = {tuple(map(str, x["path"])) for x in readable}
         has = lambda p: tuple(map(str, p)) in names
+        whole = lambda g: sum(1 for x in readable if x["group"] == g) == 3
         if kind != "int" and "topkeys" in self.profile and r.random() < 0.02 and has(["r", I("kt")]) \
                 and all(has(["r", I(v)]) for v in ("v0", "v1", "v2")):
             return ["ref", ["r", ["k", ["r", I("kt")]]]]
         if kind != "int" and r.random() < 0.06 and "keys" in self.profile:
-            if l["group"] == "n" and has(["r", I("ks")]):
+            # (a computed key may select ANY member: every member must be readable, or the read could
+            #  close a true data-flow cycle in a free world)
+            if l["group"] == "n" and has(["r", I("ks")]) and whole("n"):
                 path = ["r", I("n"), ["k", ["r", I("ks")]]]
-            elif l["group"] == "l" and has(["r", I("ki")]):
+            elif l["group"] == "l" and has(["r", I("ki")]) and whole("l"):
                 path = ["r", I("l"), ["k", ["r", I("ki")]]]
         return ["ref", path]
 
@@ -197,10 +207,9 @@ class TermGen:
         if fn == "tot":
             # a task that reads a WHOLE nested container (depends on the enclosing ref, not on its members)
             names = {tuple(map(str, x["path"])) for x in readable}
-            groups = [g for g, members in (("n", [["r", I("n"), I(k)] for k in "xyz"]), ("l", [["r", I("l"), I(j)] for j in range(3)]))
-                      if all(tuple(map(str, m)) in names for m in members)]
+            groups = [g for g in self.whole_groups if sum(1 for x in readable if x["group"] == g) == WHOLE_SIZE[g]]
             if groups and "keys" in self.profile:
-                return ["call", "tot", [["ref", ["r", I(r.choice(groups))]]], []]
+                return ["call", "tot", [["ref", r.choice(WHOLE_PATHS[r.choice(groups)])]], []]
             fn = "sq"
         t = lambda: self.term(readable, depth - 1)
         if fn == "lin":
@@ -262,6 +271,13 @@ class HistoryGen:
         self.world, self.locs = world
         self.shadow = Shadow(self.world)
         self.tg = TermGen(rng, profile)
+        # KF6: LinearKnob does not declare the containers enclosing its targets, so a reader of a WHOLE
+        # container is not re-run when a knob writes a member.  Each history therefore either reads every
+        # kind of container as a whole (knob targets then stay outside those containers) or lets knobs
+        # write into nested containers (whole reads then only on the containers knobs never write).
+        self.wide_whole = rng.random() < 0.5
+        if self.wide_whole:
+            self.tg.whole_groups = tuple(WHOLE_SIZE)
         self.w = dict(self.WEIGHTS)
         if weights:
             self.w.update(weights)
@@ -372,8 +388,8 @@ class HistoryGen:
             return ["ftask", "F%d" % self.ntask, [d["path"] for d in deps], t["path"],
                     [enc(r.choice([1.0, 2.0, -0.5])) for _ in deps], enc(r.choice([0.0, 1.5]))]
         if kind == "knob":
-            cands = [l for l in nonleaf if self.free_target(l) and l["kind"] == "float" and l["group"] not in ("n", "l")
-                     and isinstance(self._cur(l), float)]
+            cands = [l for l in nonleaf if self.free_target(l) and l["kind"] == "float"
+                     and l["group"] not in self.tg.whole_groups and isinstance(self._cur(l), float)]
             if not cands:
                 return None
             r.shuffle(cands)
@@ -445,8 +461,12 @@ class HistoryGen:
             for _ in range(r.randrange(1, 4)):
                 cands = [l for l in nonleaf if s.ckey(l["path"]) not in tt]
                 t = r.choice(cands)
+                if pairs and r.random() < 0.15:
+                    t = self.by_ck[s.ckey(r.choice(pairs)[0])]
                 rd = self.readable_for(t)
-                if rd and all(p[0] != t["path"] for p in pairs):
+                # (a dump may define one target twice: the later pair wins with overwrite=True, the
+                #  earlier one stays with overwrite=False)
+                if rd and (all(p[0] != t["path"] for p in pairs) or r.random() < 0.5):
                     pairs.append([t["path"], self.tg.deferred_term(rd, r.randrange(1, self.depth + 1))])
             return ["load", pairs, r.random() < 0.5] if pairs else None
         if kind == "unreg_task":
@@ -490,6 +510,8 @@ class HistoryGen:
             try:
                 trial.apply(op)
                 exp = trial.all_expected()
+                if not self.layered and op[0] in ("set", "iop", "ftask", "knob", "load") and trial.true_cycle() is not None:
+                    raise Discard("true data-flow cycle")
                 if op[0] == "iop":
                     ck = trial.ckey(op[1])
                     if ck in trial.defs and P.term_depth(trial.defs[ck]) > 30:
